@@ -607,12 +607,11 @@ def check(scenario, w, st, res):
                         type(o.r.exc).__name__ == 'InvalidState')
                for o in opens):
             continue          # concurrent with an effective opening call
-        # window end: the next opening call's invocation - or its return if
-        # it was refused (a refused call changes nothing itself)
-        nxt = min([(o.r.ret if (not o.r.ok and o.r.ret is not None and
-                                type(o.r.exc).__name__ == 'InvalidState')
-                    else o.r.inv)
-                   for o in opens if o.r.inv > d.r.ret] or [10**12])
+        # window end: the next opening call that was not refused (a refused
+        # call changes nothing itself)
+        nxt = min([o.r.inv for o in opens if o.r.inv > d.r.ret and not (
+            not o.r.ok and type(o.r.exc).__name__ == 'InvalidState')]
+            or [10**12])
         # linearisation point: the call's last visible effect, else return
         lin = d.r.ret
         eff = [seq for seq, tid, kind, dd, vt in hist
